@@ -236,12 +236,18 @@ func (s *State) frameObligations(fc *FuncContract, args []Value) {
 			}
 		}
 	}
+	reflectOK := false
+	for _, r := range regs {
+		if r.Ghost == "reflect" {
+			reflectOK = true
+		}
+	}
 	if !logOK && len(s.log) != s.entry.logLen {
 		s.oblige("frame", "frame:log", False)
 	}
 	for id, cur := range s.heap {
 		o := s.objByID(id)
-		if o == nil || o.Fresh || o.Ghost == "peekview" || o.Ghost == "streamview" {
+		if o == nil || o.Fresh || o.Ghost == "peekview" || o.Ghost == "streamview" || (o.Ghost == "rvcell" && reflectOK) {
 			continue
 		}
 		old, ok := s.entry.heap[id]
